@@ -267,3 +267,44 @@ Theorem C10_check_integer_inverse_meaning :
          end.
 Proof. exact @check_integer_inverse_meaning. Qed.
 Print Assumptions C10_check_integer_inverse_meaning.
+
+From V Require Import Base Tensor Graph GraphProofs GraphImpl Hash Matrix MatrixProofs Def Paths BfsStep Bfs BfsRun BfsProofs PathsProofs Mitm MitmProofs PathRun MitmFind InstShared InstMatrix InstMatrixAlgebra InstMatrixBfs.
+
+(* a matrix that passes the two-sided product check undoes the generator on EVERY reduced state, both ways, in both arithmetic modes *)
+Theorem C10_mat_undo :
+  forall (modulo : BinNums.Z) (n m : nat) (M M' : list (list BinNums.Z)) (S : state),
+         ModOk modulo n ->
+         MatOk modulo n M ->
+         MatOk modulo n M' ->
+         is_inverse_to modulo n M M' = true ->
+         UmatP modulo n m S ->
+         mat_apply modulo n m M' (mat_apply modulo n m M S) = S /\
+         mat_apply modulo n m M (mat_apply modulo n m M' S) = S.
+Proof. exact @mat_undo. Qed.
+Print Assumptions C10_mat_undo.
+
+(* in the inverted definition built by env_of / with_flag generator i undoes generator i of the origin on all states (matrix groups) *)
+Theorem C10_matrix_inverted_undo :
+  forall (d : gdesc) (im : list (list (list BinNums.Z))) (ik : gkind),
+         wf_matrix_core d = true ->
+         wf_inv_mats d im = true ->
+         inverted_kind (g_kind d) im = Some ik ->
+         forall (i : nat) (g gi : state -> state) (x : state),
+         List.nth_error (acts (impl_of d)) i = Some g ->
+         List.nth_error (acts (impl_of (with_flag d ik))) i = Some gi ->
+         Umat d x -> g (gi x) = x /\ gi (g x) = x.
+Proof. exact @matrix_inverted_undo. Qed.
+Print Assumptions C10_matrix_inverted_undo.
+
+(* the inverse map of a matrix definition sends each generator to one that undoes it on all states *)
+Theorem C10_matrix_invmap_sound :
+  forall (d : gdesc) (mp : list nat),
+         wf_matrix_core d = true ->
+         kind_inverse_map (g_kind d) = Some mp ->
+         forall (i : nat) (g : state -> state),
+         List.nth_error (acts (impl_of d)) i = Some g ->
+         exists g' : state -> state,
+           List.nth_error (acts (impl_of d)) (List.nth i mp 0) = Some g' /\
+           (forall x : state, Umat d x -> g' (g x) = x).
+Proof. exact @matrix_invmap_sound. Qed.
+Print Assumptions C10_matrix_invmap_sound.
